@@ -192,7 +192,7 @@ def gen_world(rw, rf, T, budget, base=None, tmode=None, n_clean=None, outage=Fal
     """World + channel: returns dict(base, tmode, receiver, aircraft, noisy,
     msgs) with msgs = sorted [(t_rel, seq, 'a'|'c', hex, addr)]."""
     if base is None:
-        base = rw.choice(BASES)
+        base = rw.choice(BASES + [-float(int(T / 2)), -float(int(T / 3)) - 0.5])   # some time axes run through zero
     if tmode is None:
         tmode = rw.choice(["float", "float", "ms", "int", "half"])
     if n_clean is None:
